@@ -55,15 +55,48 @@ class DenseOp:
         return False
 
 
-def mk_evt(L, H, enc_method, proc_method, thetas):
+def lib_operator(opspec, f_sys):
+    """an operator object of the library on the system field (instead of the dense duck-typed DenseOp):
+    {"kind": "pauli", "terms": [[letters with optional phase prefix, [re, im]], ...]} | {"kind": "ising", J, h, g} |
+    {"kind": "heis", J: [3], h: [3]}"""
+    import qib
+    from qib.operator import PauliOperator, PauliString, WeightedPauliString
+    if opspec["kind"] == "pauli":
+        ws = []
+        for st, w in opspec["terms"]:
+            c = complex(w[0], w[1])
+            ws.append(WeightedPauliString(PauliString.from_string(st), c.real if c.imag == 0 else c))
+        return PauliOperator(ws).set_field(f_sys)
+    if opspec["kind"] == "ising":
+        return qib.operator.IsingHamiltonian(f_sys, opspec["J"], opspec["h"], opspec["g"])
+    if opspec["kind"] == "heis":
+        return qib.operator.HeisenbergHamiltonian(f_sys, opspec["J"], opspec["h"])
+    raise ValueError(opspec["kind"])
+
+
+def as_sequence(thetas, seq_as):
+    """the container / element type the angle sequence is handed over in"""
+    if seq_as == "tuple":
+        return tuple(thetas)
+    if seq_as == "array":
+        return np.array(thetas, dtype=float)
+    if seq_as == "np-scalars":
+        return [np.float64(t) for t in thetas]
+    if seq_as == "int":
+        return [int(t) for t in thetas]
+    return list(thetas)
+
+
+def mk_evt(L, H, enc_method, proc_method, thetas, opspec=None, seq_as=None):
     import qib
     f_sys = qib.field.Field(qib.field.ParticleType.QUBIT, qib.lattice.IntegerLattice((L,), pbc=False))
     f2 = qib.field.Field(qib.field.ParticleType.QUBIT, qib.lattice.IntegerLattice((2,), pbc=False))
     q_anc, q_enc = qib.field.Qubit(f2, 0), qib.field.Qubit(f2, 1)
-    block = qib.operator.BlockEncodingGate(DenseOp(f_sys, H), getattr(qib.operator.BlockEncodingMethod, enc_method))
+    op = DenseOp(f_sys, H) if opspec is None else lib_operator(opspec, f_sys)
+    block = qib.operator.BlockEncodingGate(op, getattr(qib.operator.BlockEncodingMethod, enc_method))
     block.set_auxiliary_qubits(q_enc)
     proc = qib.algorithms.qubitization.ProjectorControlledPhaseShift(0., [0], q_enc, q_anc, proc_method)
-    et = qib.algorithms.qubitization.EigenvalueTransformation(block, proc, theta_seq=list(thetas))
+    et = qib.algorithms.qubitization.EigenvalueTransformation(block, proc, theta_seq=as_sequence(thetas, seq_as))
     return et, block, proc, [f2, f_sys]
 
 
@@ -235,13 +268,18 @@ def oracle_phase(ctx, n, method, theta):
     return proc, fields, circ, M
 
 
-def oracle_evt(ctx, L, H, enc_method, proc_method, thetas, nenc=1, V=None):
+def oracle_evt(ctx, L, H, enc_method, proc_method, thetas, nenc=1, V=None, opspec=None, seq_as=None):
     """H: encoded Hamiltonian (library block encodings, one encoding qubit)  or
-    V: a unitary on nenc + L qubits used as a user-defined block encoding with nenc encoding qubits"""
+    V: a unitary on nenc + L qubits used as a user-defined block encoding with nenc encoding qubits;
+    opspec: the Hamiltonian as an operator object of the library (then H is ignored); seq_as: container of the angles"""
     if V is None:
-        et, block, proc, fields = mk_evt(L, H, enc_method, proc_method, thetas)
-        inp = {"kind": "evt", "L": L, "H": cplx_list(H), "enc_method": enc_method, "proc_method": proc_method,
+        et, block, proc, fields = mk_evt(L, H, enc_method, proc_method, thetas, opspec, seq_as)
+        inp = {"kind": "evt", "L": L, "H": cplx_list(H) if opspec is None else None, "enc_method": enc_method, "proc_method": proc_method,
                "thetas": list(thetas)}
+        if opspec is not None:
+            inp["op"] = opspec
+        if seq_as is not None:
+            inp["seq_as"] = seq_as
     else:
         et, block, proc, fields = mk_evt_multi(nenc, L, V, proc_method, thetas)
         inp = {"kind": "evt", "L": L, "V": cplx_list(V), "nenc": nenc, "enc_method": "general", "proc_method": proc_method,
@@ -261,13 +299,13 @@ def oracle_evt(ctx, L, H, enc_method, proc_method, thetas, nenc=1, V=None):
     for k in range(n):
         th2 = list(thetas)
         th2[k] = th2[k] + 0.4375
-        et.set_theta_seq(th2)
+        et.set_theta_seq(as_sequence(th2, seq_as if seq_as != "int" else None))
         M2 = np.asarray(et.as_matrix())
         if np.abs(M2 - M).max() < 1e-6:
             ctx.fail("evt:as_matrix does not depend on an angle (%s)" % cls, dict(inp, angle_index=k),
                      "matrix changes when angle %d changes" % k, "unchanged")
             break
-    et.set_theta_seq(list(thetas))
+    et.set_theta_seq(as_sequence(thetas, seq_as))
     letters, circ, nblock = evt_letters(et, block, proc, thetas)
     if nblock != n:
         ctx.fail("evt:as_circuit applies the encoding %s len(angles) times (%s)" % ("<" if nblock < n else ">", cls), inp, n, nblock)
@@ -715,6 +753,43 @@ def gen_evt_history(rng, distinct_angles, thorough):
     return W2, L, init, ops
 
 
+def structured_sequences(rng, dyadic, thorough):
+    """angle sequences with EQUAL values at chosen positions (the class 'the same value where the code treats positions
+    differently'): two equal entries at every pair of positions (every parity pattern) for lengths 2..5 (thorough 7), the other
+    entries distinct; constant sequences; palindromes of even and odd length; sequences containing 0, -0.0 and multiples of
+    pi/2, pi, 2 pi, 4 pi (Rz has period 4 pi, the phase shift 2 pi); values equal modulo 2 pi but not equal; a and -a.
+    Returns [(label, thetas)]."""
+    def fresh(k, avoid=()):
+        out = []
+        while len(out) < k:
+            t = dyadic()
+            if all(abs(t - u) > 1e-9 for u in list(out) + list(avoid)):
+                out.append(t)
+        return out
+    seqs = []
+    a, b, c = fresh(3)
+    for n in range(2, (7 if thorough else 5) + 1):
+        for i in range(n):
+            for j in range(i + 1, n):
+                th = fresh(n, [a])
+                th[i] = th[j] = a
+                seqs.append(("equal@%d,%d/len%d" % (i, j, n), th))
+    for n in (2, 3, 4, 5, 6, 7, 9, 12):
+        seqs.append(("constant/len%d" % n, [a] * n))
+    seqs += [("palindrome", [a, b, b, a]), ("palindrome", [a, b, a]), ("palindrome", [a, b, c, b, a]), ("palindrome", [a, b, c, c, b, a]),
+             ("palindrome", [a, a, b, a, a]), ("two-values", [a, b, a, b]), ("two-values", [a, b, b, a, a, b]), ("two-values", [a, a, b, b]),
+             ("two-values", [a, b, b]), ("two-values", [a, a, b]), ("two-values", [b, a, a, a])]
+    pi = math.pi
+    seqs += [("zeros", [0.0, 0.0]), ("zeros", [0.0, 0.0, 0.0]), ("zeros", [0.0, a, 0.0]), ("zeros", [a, 0.0, 0.0, a]), ("zeros", [-0.0, 0.0]),
+             ("zeros", [0.0]), ("zeros", [0.0, a]), ("zeros", [a, 0.0])]
+    for m, name in ((pi / 2, "pi/2"), (pi, "pi"), (2 * pi, "2pi"), (4 * pi, "4pi"), (-pi, "-pi"), (3 * pi, "3pi"), (-2 * pi, "-2pi")):
+        seqs += [("multiple:" + name, [m]), ("multiple:" + name, [m, m]), ("multiple:" + name, [a, m]), ("multiple:" + name, [m, a]),
+                 ("multiple:" + name, [m, a, m]), ("multiple:" + name, [a, m, m, b])]
+    seqs += [("mod-2pi", [a, a + 2 * pi]), ("mod-2pi", [a + 2 * pi, a, b]), ("mod-2pi", [a, a + 4 * pi]), ("mod-2pi", [a, b, a - 2 * pi, b + 4 * pi]),
+             ("negated", [a, -a]), ("negated", [a, -a, a]), ("negated", [-a, b, -b, a])]
+    return seqs
+
+
 # ------------------------------------------------------------------------------ run
 def model_words(ctx, maxlen):
     """ask Coq for the factor words of the model of as_matrix (from the regenerated definitions)"""
@@ -827,6 +902,24 @@ def run(ctx):
             if all(abs(t - s) > 1e-9 for s in thetas):
                 thetas.append(t)
         return thetas
+
+    def seq_angles(n):
+        """angle sequences for the histories: pairwise distinct, or (45%) with equal values - constant, palindrome, one value
+        repeated at two random positions, zeros"""
+        th = distinct_angles(n)
+        r = rng.random()
+        if n >= 2 and r < 0.15:
+            th = [th[0]] * n
+        elif n >= 2 and r < 0.27:
+            th = [th[min(i, n - 1 - i)] for i in range(n)]
+        elif n >= 2 and r < 0.4:
+            i, j = rng.sample(range(n), 2)
+            th[j] = th[i]
+        elif r < 0.45:
+            th[rng.randrange(n)] = 0.0
+            if n >= 2:
+                th[rng.randrange(n)] = 0.0
+        return th
 
     # ---------------------------------------------------------------- phase shift circuits
     reps = 12 if ctx.thorough else 4
@@ -971,6 +1064,79 @@ def run(ctx):
                         ctx.nontriv(dict(desc, op="as_matrix vs model word"))
                         if not np.allclose(prod, M, atol=1e-8):
                             word_bad.append(desc)
+    # ---------------------------------------------------------------- angle sequences with equal / special values
+    ctx.rules.append("eigenvalue transformation, angle sequences that are NOT pairwise distinct (numpy oracles: alternating product with "
+                     "the implementation's U and numpy.linalg.inv(U), dependence on every angle, circuit block, number of encodings): two "
+                     "equal entries at every pair of positions for lengths 2..%d, constant sequences up to length 12, palindromes, two-valued "
+                     "patterns, sequences with 0 / -0.0 / multiples of pi/2, pi, 2pi, 4pi, values equal modulo 2pi, a and -a; x {Wx, Wxi, R} x "
+                     "{c-phase, auxiliary}; a user-defined 2-qubit encoding on a subset; angle containers list / tuple / ndarray / numpy scalars / "
+                     "Python ints; Hamiltonians given as library operators (PauliOperator incl. odd-q strings with imaginary weights, Ising, "
+                     "Heisenberg) and special dense H (zero, diagonal, real, norm 0.99)" % (7 if ctx.thorough else 5))
+    sseqs = structured_sequences(rng, dyadic, ctx.thorough)
+    combos = [(e, p) for e in ("Wx", "Wxi", "R") for p in ("c-phase", "auxiliary")]
+    for k, (label, thetas) in enumerate(sseqs):
+        # every sequence under both non-Hermitian encodings (U^-1 != U) and alternating phase-shift methods; R on every third
+        mine = [combos[(k % 2)], combos[2 + ((k + 1) % 2)]] + ([combos[4 + (k % 2)]] if (k % 3 == 0 or ctx.thorough) else [])
+        if ctx.thorough:
+            mine = combos
+        for enc_method, proc_method in mine:
+            L = 1 if not ctx.thorough else rng.choice([1, 1, 2])
+            H = rand_herm(rng, L)
+            ctx.count("evt_structured_%s" % label.split("/")[0].split("@")[0].split(":")[0])
+            ctx.count("evt_%s_%s" % (enc_method, proc_method))
+            try:
+                oracle_evt(ctx, L, H, enc_method, proc_method, thetas)
+            except Exception as e:
+                ctx.fail("evt:exception:" + type(e).__name__,
+                         {"kind": "evt", "L": L, "H": cplx_list(H), "enc_method": enc_method, "proc_method": proc_method, "thetas": thetas},
+                         "a matrix and a circuit", repr(e))
+                continue
+            oracle_only({"kind": "evt", "len": len(thetas), "L": L, "enc": enc_method, "proc": proc_method, "thetas": thetas,
+                         "pattern": label}, True)
+        if k % 5 == 0 and len(thetas) <= 6:
+            V = rand_unitary(rng, 2 ** 3)
+            pm = ("c-phase", "auxiliary")[(k // 5) % 2]
+            ctx.count("evt_structured_general")
+            try:
+                oracle_evt(ctx, 1, None, "general", pm, thetas, nenc=2, V=V)
+                oracle_only({"kind": "evt", "len": len(thetas), "L": 1, "enc": "general", "nenc": 2, "proc": pm, "thetas": thetas}, True)
+            except Exception as e:
+                ctx.fail("evt:exception:" + type(e).__name__, {"kind": "evt", "L": 1, "V": cplx_list(V), "nenc": 2, "enc_method": "general",
+                                                               "proc_method": pm, "thetas": thetas}, "a matrix and a circuit", repr(e))
+    # containers / element types of the angle sequence; the Hamiltonian as a library operator; special dense Hamiltonians
+    a1, a2, a3 = distinct_angles(3)
+    variants = []
+    for seq_as, thetas in (("tuple", [a1, a2, a1]), ("array", [a1, a1]), ("array", [a1, a2, a3, a2]), ("np-scalars", [a2, a2, a1]),
+                           ("int", [1.0, 2.0, 1.0, 1.0]), ("int", [0.0, 3.0]), ("int", [2.0, 2.0])):
+        variants.append((None, None, seq_as, thetas))
+    r2 = 1 / math.sqrt(2)
+    for opspec in ({"kind": "pauli", "terms": [["XZ", [0.3, 0.0]], ["-iZY", [0.0, 0.4]]]},           # odd q, imaginary weight
+                   {"kind": "pauli", "terms": [["iY", [0.0, -0.6]]]}, {"kind": "pauli", "terms": [["-X", [0.25, 0.0]], ["Z", [0.5, 0.0]]]},
+                   {"kind": "ising", "J": 0.2, "h": -0.15, "g": 0.1}, {"kind": "heis", "J": [0.1, -0.12, 0.08], "h": [0.05, 0.1, -0.07]}):
+        L = 2 if opspec["kind"] != "pauli" else len(opspec["terms"][0][0].lstrip("-i"))
+        variants.append((opspec, L, None, [a1, a2, a2, a1] if opspec["kind"] != "heis" else [a3, a3, a3]))
+    for name, Hs in (("zero", np.zeros((2, 2))), ("diagonal", np.diag([0.5, -0.25])), ("real", np.array([[0.3, 0.4], [0.4, -0.3]])),
+                     ("norm-0.99", 0.99 * np.array([[0, -1j], [1j, 0]])), ("multiple-of-identity", 0.5 * np.identity(4)),
+                     ("rank-one", 0.8 * np.outer([r2, r2 * 1j], [r2, -r2 * 1j]))):
+        variants.append((np.asarray(Hs, dtype=complex), None, None, [a1, a2, a1, a1]))
+    for k, (spec, L, seq_as, thetas) in enumerate(variants):
+        for enc_method, proc_method in (combos[k % 2], combos[2 + (k + 1) % 2], combos[4 + k % 2]):
+            ctx.count("evt_variant_%s" % (seq_as or (spec["kind"] if isinstance(spec, dict) else "special-H")))
+            if isinstance(spec, dict):
+                Hm, opspec, Lk = None, spec, L
+            else:
+                Hm = spec if spec is not None else rand_herm(rng, 1)
+                opspec, Lk = None, int(round(math.log2(Hm.shape[0])))
+            try:
+                oracle_evt(ctx, Lk, Hm, enc_method, proc_method, thetas, opspec=opspec, seq_as=seq_as)
+            except Exception as e:
+                ctx.fail("evt:exception:" + type(e).__name__,
+                         {"kind": "evt", "L": Lk, "H": cplx_list(Hm) if Hm is not None else None, "op": opspec, "seq_as": seq_as,
+                          "enc_method": enc_method, "proc_method": proc_method, "thetas": thetas}, "a matrix and a circuit", repr(e))
+                continue
+            oracle_only({"kind": "evt", "len": len(thetas), "L": Lk, "enc": enc_method, "proc": proc_method, "thetas": thetas,
+                         "variant": seq_as or (spec["kind"] if isinstance(spec, dict) else "special-H %d" % k)}, True)
+
     if words is not None:
         ctx.evaluations += nword
         ctx.traces += nword
@@ -983,7 +1149,8 @@ def run(ctx):
                      "setter (set_theta, set_encoding_qubits, set_auxiliary_qubits, set_method, set_theta_seq, operator replaced / "
                      "changed in place, block encoding gate replaced, processing.set_theta), qubits re-bound inside a larger register; "
                      "after every call every object handed out so far is compared with the numpy reference for the parameters it was "
-                     "obtained with; systematic (each setter between two getters, every method combination) + random histories")
+                     "obtained with; systematic (each setter between two getters, every method combination) + random histories; angle "
+                     "sequences of the histories: distinct, constant, palindromic, one value at two positions, zeros")
     hists = []
     for method in ("auxiliary", "c-phase"):
         for n in (1, 2):
@@ -1005,7 +1172,8 @@ def run(ctx):
         for proc_method in ("auxiliary", "c-phase"):
             other = "c-phase" if proc_method == "auxiliary" else "auxiliary"
             H1, H2 = cplx_list(rand_herm(rng, 1)), cplx_list(rand_herm(rng, 1))
-            setters = [[["thetas", distinct_angles(rng.randint(2, 4))]], [["enc", 2]],
+            ca, cb = distinct_angles(2)
+            setters = [[["thetas", distinct_angles(rng.randint(2, 4))]], [["thetas", [ca, ca]]], [["thetas", [ca, cb, cb, ca]]], [["enc", 2]],
                        [["anc", 2]] if proc_method == "auxiliary" else None,
                        [["method", other]] + ([["anc", 0]] if other == "auxiliary" else []),
                        [["H", H1]], [["H_inplace", H2]], [["block", {"Wx": "R", "Wxi": "Wx", "R": "Wxi"}[enc_method]]],
@@ -1016,9 +1184,9 @@ def run(ctx):
                             "thetas": distinct_angles(rng.randint(2, 4)), "enc": 1, "anc": 0, "bind": "before"}
                     hists.append(("evt", 3, 1, init, [["circuit"], ["matrix"]] + setter + [["circuit"], ["matrix"]]))
     for _ in range(60 if ctx.thorough else 14):
-        hists.append(("evt",) + gen_evt_history(rng, distinct_angles, ctx.thorough))
+        hists.append(("evt",) + gen_evt_history(rng, seq_angles, ctx.thorough))
     for _ in range(60 if ctx.thorough else 16):
-        hists.append(("evt",) + gen_evt_model_history(rng, dyadic, distinct_angles))
+        hists.append(("evt",) + gen_evt_model_history(rng, dyadic, seq_angles))
     hcases = []
     MODELLED = {"theta", "enc", "aux", "anc", "method", "thetas", "proc_theta", "circuit", "matrix", "proc_circuit"}
     for hst in hists:
@@ -1078,7 +1246,8 @@ def replay(ctx, data):
         if "V" in inp:
             oracle_evt(ctx, inp["L"], None, "general", inp["proc_method"], inp["thetas"], nenc=inp["nenc"], V=from_cplx_list(inp["V"]))
         else:
-            oracle_evt(ctx, inp["L"], from_cplx_list(inp["H"]), inp["enc_method"], inp["proc_method"], inp["thetas"])
+            oracle_evt(ctx, inp["L"], from_cplx_list(inp["H"]) if inp.get("H") is not None else None, inp["enc_method"], inp["proc_method"],
+                       inp["thetas"], opspec=inp.get("op"), seq_as=inp.get("seq_as"))
     # report under the recorded signature only
     hit = [f for f in ctx.failing[before:]]
     ctx.failing[before:] = []
